@@ -17,6 +17,7 @@
 (* Dyadic (exact dyadic rationals m*2^-e), ScalarTerm (symbolic terms).    *)
 (***************************************************************************)
 EXTENDS Naturals, Integers, Sequences, FiniteSets
+LOCAL INSTANCE SequencesExt      \* FoldLeft (evaluated natively by TLC)
 
 CONSTANTS SAdd(_,_), SMul(_,_), SNeg(_), SDiv(_,_),
           SFn(_,_),      \* SFn(name, x): "exp" "ln" "sigmoid" "relu" "step"
@@ -30,11 +31,17 @@ Mn(a, b) == IF a <= b THEN a ELSE b
 RECURSIVE Prod(_)
 Prod(d) == IF d = <<>> THEN 1 ELSE Head(d) * Prod(Tail(d))
 
-RECURSIVE SumV(_)
-SumV(s) == IF s = <<>> THEN SZero
-           ELSE IF Len(s) = 1 THEN s[1] ELSE SAdd(Head(s), SumV(Tail(s)))
+\* left-to-right sum of a sequence of scalars.  (Not a RECURSIVE operator: TLC re-evaluates the
+\* arguments of recursive operators at every reference, which is quadratic here.)
+SumV(s) == IF Len(s) = 0 THEN SZero ELSE FoldLeft(SAdd, s[1], SubSeq(s, 2, Len(s)))
 
-T(d, v) == [d |-> d, v |-> v]
+\* strict binding: F applied to the VALUE of x (TLC evaluates set elements eagerly, so x is computed
+\* exactly once; used where an argument of a recursive operator would otherwise be re-evaluated)
+Strict(x, F(_)) == CHOOSE r \in { F(y) : y \in {x} } : TRUE
+
+\* a tensor; its values are materialised into a tuple here (a TLC function constructor is lazy and
+\* would re-evaluate an element's defining expression at every access)
+T(d, v) == [d |-> d, v |-> v \o <<>>]
 Size(t) == Len(t.v)
 Fill(d, x) == T(d, [k \in 1..Prod(d) |-> x])
 Zeros(d) == Fill(d, SZero)
